@@ -2,7 +2,7 @@ import FiberModel.DriverUtil
 import FiberModel.C15.ConcSpec
 /-
 Driver for C15. Case fields (after the id):
-  source(cookie|header|query|default) storage(mem|inj) idle abs ops obs
+  source(cookie|header|query|default) storage(mem|inj|memN|injN; N = built by session.New with an explicit Store) idle abs ops obs
 see harness/cmd/c15/main.go for the op, script and observation syntax.
 -/
 open B DriverUtil C15
@@ -38,7 +38,7 @@ def parseAct (s : String) : Except String Act := do
   | 'd' => do pure (.del (← hxSafe arg))
   | 's' =>
     match arg.splitOn "=" with
-    | [k, v] => do pure (.set (← hxSafe k) (← hxSafe v))
+    | [k, v] => do pure (.set (← hxSafe k) (← if v == "-" then pure [] else hxSafe v))
     | _ => throw "outside-domain: set action"
   | 'T' =>
     match arg.toInt? with
@@ -258,7 +258,7 @@ def handleCase (f : List String) : Except String Verdict := do
   match f with
   | [id, src, sto, idle, abs, ops, impl] =>
     let some source := sourceOf src | throw "outside-domain: source"
-    if sto != "mem" && sto != "inj" then throw "outside-domain: storage"
+    if sto != "mem" && sto != "inj" && sto != "memN" && sto != "injN" then throw "outside-domain: storage"
     let some idle := idle.toNat? | throw "outside-domain: idle"
     let some abs := abs.toNat? | throw "outside-domain: abs"
     if idle = 0 || idle > 3600 || abs > 100000 || (abs > 0 && abs < idle) then throw "outside-domain: timeouts"
